@@ -2,26 +2,26 @@
 
 PROPS = {
     "C07": {
-        "units": {"kani": ["c07_sha256", "c07_sha512", "c07_ripemd160", "c07_poseidon_varlen"], "polyvc": ["c07_sha256_gates", "c07_sha512_gates", "c07_ripemd160_gates"]},
+        "units": {"kani": ["c07_sha256", "c07_sha512", "c07_ripemd160", "c07_poseidon_varlen", "c07_poseidon_sponge"], "polyvc": ["c07_sha256_gates", "c07_sha512_gates", "c07_ripemd160_gates"]},
         "scope": "off-circuit spread/limb kernels of the SHA-256, SHA-512 and RIPEMD-160 chips (table contents and every witness limb are computed by them)",
         "not_decided": ["all in-circuit constraint emission, table wiring, message schedule, padding, varlen selection",
                         "Poseidon (chip, cpu, round skips), Keccak/SHA3, BLAKE2b"],
         "trusted_base": [],
         "assumptions": [],
-        "claim": "Proof, for ALL inputs of each function, that the off-circuit spread/limb kernels which fill the SHA-256/SHA-512/RIPEMD-160 lookup tables and compute every witness limb are the FIPS 180-4 / RIPEMD functions they stand for (spread/even-odd bijection, Maj, Ch identity, the four sigma functions on the chip's limb splits, limb recomposition and rotation). Added: the custom gates of the three chips (28 gate obligations, PolyVC: constraint ideal = ideal of a specification derived from FIPS rotation amounts and the limb layout), and the chunk-index arithmetic of VarLenPoseidonGadget::poseidon_varlen (the filler-zeroing branch is taken exactly on the last chunk; Kani slice, full usize domain). Cell assignment / copy-constraint wiring, message schedule wiring, padding, the Poseidon permutation, Keccak and BLAKE2b are NOT decided.",
+        "claim": "Proof, for ALL inputs of each function, that the off-circuit spread/limb kernels which fill the SHA-256/SHA-512/RIPEMD-160 lookup tables and compute every witness limb are the FIPS 180-4 / RIPEMD functions they stand for (spread/even-odd bijection, Maj, Ch identity, the four sigma functions on the chip's limb splits, limb recomposition and rotation). Added: the custom gates of the three chips (28 gate obligations, PolyVC: constraint ideal = ideal of a specification derived from FIPS rotation amounts and the limb layout), and the chunk-index arithmetic of VarLenPoseidonGadget::poseidon_varlen (the filler-zeroing branch is taken exactly on the last chunk; Kani slice, full usize domain); bounded: `absorb` of the in-circuit Poseidon sponge steps like the off-circuit sponge. Cell assignment / copy-constraint wiring, message schedule wiring, padding, the Poseidon permutation, Keccak and BLAKE2b are NOT decided.",
         "level_note": "Kani/CBMC bit-precise over the full input domain of each function (loops bounded by the word width, unwinding assertions on); trusted: Kani+CBMC+SAT solver, rustc MIR semantics; the chips' use of these kernels is not verified.",
         "technique": "Kani function contracts and full-domain harnesses on the real functions (contract-based deductive verification)",
         "design_ref": "DESIGN.md section 5, C07",
     },
 }
 PROPS["C12"] = {
-    "units": {"kani": ["c12_booth", "c12_bitreverse", "c12_windows"], "verus": ["c12_booth_sum", "c12_chunks_v"]},
+    "units": {"kani": ["c12_booth", "c12_bitreverse", "c12_windows"], "verus": ["c12_booth_sum", "c12_chunks_v", "c12_msm_parallel_v"]},
     "scope": "the signed-digit (Booth) recoding consumed by every Rust MSM path, the bit-reversal permutation of best_fft, and the chunking arithmetic that makes results independent of the thread count",
     "not_decided": ["bucket / batch-affine / Schedule logic and the butterflies (generic over curve and field traits, iterator adapters)",
                     "msm_specific / multi_exp (blst)", "EvaluationDomain algebra (generic + rayon)"],
     "trusted_base": [],
     "assumptions": [],
-    "claim": "Proof for the arithmetic kernels only: get_booth_index returns exactly the radix-2^c Booth digit for every 32-byte scalar, window size 1..24 and window; the window counts of msm_serial / msm_best always include the carry window; hence (Verus induction) the digits consumed by every Rust MSM path sum to the scalar; best_fft's bitreverse is the bit-reversal involution; the chunking arithmetic of parallelize / eval_polynomial partitions the slice exactly and hands every worker the global offset of its chunk, for every length and thread count (Verus, unbounded; the offset slices are functions of all locals in scope). The bucket accumulation, butterflies and domain algebra are NOT decided.",
+    "claim": "Proof for the arithmetic kernels only: get_booth_index returns exactly the radix-2^c Booth digit for every 32-byte scalar, window size 1..24 and window; the window counts of msm_serial / msm_best always include the carry window; hence (Verus induction) the digits consumed by every Rust MSM path sum to the scalar; best_fft's bitreverse is the bit-reversal involution; the chunking arithmetic of parallelize / eval_polynomial partitions the slice exactly and hands every worker the global offset of its chunk, for every length and thread count (Verus, unbounded; the offset slices are functions of all locals in scope); msm_parallel allocates one result slot per chunk, so no term of the sum is dropped (Verus slice; std's Chunks::len contract assumed). The bucket accumulation, butterflies and domain algebra are NOT decided.",
     "level_note": "Kani/CBMC over the full input domain (loops bounded by 32 bytes / 64 bits, unwinding assertions on); bitreverse is a nested fn and is extracted verbatim into a stand-alone crate each run (enclosing function dropped). Trusted: Kani+CBMC, rustc MIR.",
     "technique": "Kani function contract on get_booth_index + full-domain harnesses; Verus integer lemmas (contract-based deductive verification)",
     "design_ref": "DESIGN.md section 5, C12",
@@ -39,7 +39,7 @@ PROPS["C19"] = {
     "design_ref": "DESIGN.md section 5, C19",
 }
 PROPS["C16"] = {
-    "units": {"kani": ["c16_serialization", "c16_pack", "c10_bytes", "c16_arch_columns", "c16_zkir_arity", "c16_zkir_into_bytes"], "polyvc": ["c11_bls", "c16_zkir_routing", "c16_vk_read"]},
+    "units": {"kani": ["c16_serialization", "c16_pack", "c10_bytes", "c16_arch_columns", "c16_zkir_arity", "c16_zkir_into_bytes", "c16_zkir_used_chips", "c11_compressed_flags"], "polyvc": ["c11_bls", "c16_zkir_routing", "c16_vk_read"]},
     "scope": "pure-Rust byte decoders: the automaton Serialize::deserialize family, pack/unpack of selector bytes, and (shared with C10) the canonical-field-encoding decoders",
     "not_decided": ["VerifyingKey::read_from_cs, bincode itself, the rest of ZkStdLib::configure, ParamsKZG::read_custom: generic / iterator / FFI code", "that Instruction::check_arity accepts only what the off-circuit / in-circuit IR parsers can process without panicking",
                     "the verifier itself (verifier.rs) is not under contract: only the invariant it relies on when indexing vk.fixed_commitments is established at decode time (both panics named in the property text were reproduced and repaired)", "IR compile panics that need whole-program reasoning (Jubjub constants without the jubjub chip) or a policy bound (IntoBytes allocation)",
@@ -66,7 +66,7 @@ PROPS["C10"] = {
     "design_ref": "DESIGN.md section 5, C10",
 }
 PROPS["C11"] = {
-    "units": {"polyvc": ["c11_jubjub", "c11_bls"]},
+    "units": {"polyvc": ["c11_jubjub", "c11_bls"], "kani": ["c11_compressed_flags"]},
     "scope": "the pure-Rust Jubjub group law (all representation mixes of add/sub, double, negation, conversions, equality predicates) and the Rust-level coordinate accessors / constructors / equality of BLS12-381 G1 and G2",
     "not_decided": ["all blst point routines (add/double/mult/compress/uncompress/on_curve/in_g1) and therefore the checked-decoder clause for G1/G2",
                     "Jubjub multiply (bit loop), from_bytes_inner (CtOption closures, sqrt), batch_normalize", "secp256k1 / Curve25519 (wrappers over external crates)",
@@ -74,7 +74,7 @@ PROPS["C11"] = {
     "trusted_base": [],
     "assumptions": ["the field type's + - * square double invert are the field operations (blst for the Jubjub base field)",
                     "a blst_p1/blst_p2 (x,y,z) denotes the affine point (x/z^2, y/z^3), z = 0 the identity (blst's Jacobian representation)"],
-    "claim": "Proof, as polynomial identities valid over every commutative ring, that every pure-Rust Jubjub group operation returns a representative of the twisted-Edwards affine sum / difference / double / negation of the points its arguments denote and re-establishes the representation invariant, that the equality predicates compare exactly the cross-multiplied coordinates, and that the G1/G2 Jacobian accessors, constructors and ct_eq are consistent with blst's Jacobian representation. blst's own point arithmetic and decoders are NOT decided.",
+    "claim": "Proof, as polynomial identities valid over every commutative ring, that every pure-Rust Jubjub group operation returns a representative of the twisted-Edwards affine sum / difference / double / negation of the points its arguments denote and re-establishes the representation invariant, that the equality predicates compare exactly the cross-multiplied coordinates, and that the G1/G2 Jacobian accessors, constructors and ct_eq are consistent with blst's Jacobian representation; the checked G1/G2 decoders route through the on-curve / subgroup checks and the flag-consistency test of the generic compressed decoder accepts exactly one encoding of the identity. blst's own point arithmetic and decoders are NOT decided.",
     "level_note": "PolyVC: own VC generator (symbolic execution of the extracted body; goals decided by exact Groebner reduction in sympy). Trusted: the PolyVC parser/executor, sympy; the field implementation and blst's representation are stated assumptions.",
     "technique": "contract-based VC generation over field-polynomial code (ideal membership by Groebner reduction)",
     "design_ref": "DESIGN.md section 1.3 and section 5, C11",
@@ -94,13 +94,13 @@ PROPS["C06"] = {
     "design_ref": "DESIGN.md section 5, C06",
 }
 PROPS["C05"] = {
-    "units": {"verus": ["c05_biguint_bounds"], "kani": ["c05_chunk_weights", "c05_mod_exp", "c05_field_mul"]},
+    "units": {"verus": ["c05_biguint_bounds"], "kani": ["c05_chunk_weights", "c05_mod_exp", "c05_field_mul", "c05_biguint_msl"]},
     "scope": "one bookkeeping kernel of the BigUint gadget: the size-bound arithmetic that decides when lazily-normalised limbs must be renormalised",
     "not_decided": ["the CRT identity and get_identity_auxiliary_bounds of the foreign-field chip (BigInt + closures: not ingestible without rewriting, which would be a model)",
                     "every foreign-field / BigUint gate, range check, quotient and carry constraint", "equality / public-input exposure of emulated elements"],
     "trusted_base": [],
     "assumptions": ["std::cmp::max returns the larger argument (assume_specification; vstd has none)"],
-    "claim": "Proof for one kernel only (thin by admission): bound_of_addition returns, for all inputs, a true upper bound on the bit size of a sum and the smallest such bound, without u32 overflow. A `max` without the `+ 1` keeps every honest-witness test green and makes the lazy normalisation unsound; that is what this contract pins down. Added: the weights with which FieldChip::assigned_from_le_bytes / assigned_from_le_bits recombine chunks (chunk length, per-chunk exponent, per-byte / per-bit weight) are proved, over the full u32 domain of LOG2_BASE, to be those of the little-endian value (sub-expression slices; Kani); the square-and-multiply schedule of BigUintGadget::mod_exp returns x^n AND reduced for every n (body slice over an abstract domain; callee contracts of mod_mul / div_rem assumed); FieldChip::mul returns k*x*y on every branch, including the shortcuts for the cached constants 0 and 1 (body slice over an abstract domain). The CRT identity, all gates, range checks and quotient/carry handling of the foreign-field and BigUint gadgets are NOT decided.",
+    "claim": "Proof for one kernel only (thin by admission): bound_of_addition returns, for all inputs, a true upper bound on the bit size of a sum and the smallest such bound, without u32 overflow. A `max` without the `+ 1` keeps every honest-witness test green and makes the lazy normalisation unsound; that is what this contract pins down. Added: the weights with which FieldChip::assigned_from_le_bytes / assigned_from_le_bits recombine chunks (chunk length, per-chunk exponent, per-byte / per-bit weight) are proved, over the full u32 domain of LOG2_BASE, to be those of the little-endian value (sub-expression slices; Kani); the square-and-multiply schedule of BigUintGadget::mod_exp returns x^n AND reduced for every n (body slice over an abstract domain; callee contracts of mod_mul / div_rem assumed); FieldChip::mul returns k*x*y on every branch, including the shortcuts for the cached constants 0 and 1 (body slice over an abstract domain); the limb count and most-significant-limb bound of BigUintGadget::assign_fixed_biguint / assign_bounded are exactly the bit length's split into LOG2_BASE-bit limbs (slices, full u32 domain). The CRT identity, all gates, range checks and quotient/carry handling of the foreign-field and BigUint gadgets are NOT decided.",
     "level_note": "Verus/Z3 on the function extracted verbatim; one assumed specification (std::cmp::max); Kani on sub-expression slices (loop-free, full domain). Trusted: Verus+Z3, the extraction scanner.",
     "technique": "Verus contract (requires/ensures over pow2 with soundness and minimality lemmas) on the extracted function",
     "design_ref": "DESIGN.md section 5, C05",
@@ -122,7 +122,7 @@ PROPS["C01"] = {
     "design_ref": "DESIGN.md section 9.4 (fix 15) and 9.2",
 }
 PROPS["C18"] = {
-    "units": {"kani": ["c16_zkir_arity", "c16_zkir_into_bytes", "c05_mod_exp"], "polyvc": ["c16_zkir_routing"]},
+    "units": {"kani": ["c16_zkir_arity", "c16_zkir_into_bytes", "c16_zkir_used_chips", "c05_mod_exp"], "polyvc": ["c16_zkir_routing"]},
     "scope": "the 'rejected with an error value rather than a panic' clause only, for the parts of IR loading and compilation that are within reach: arity validation (and that it is what both parsers index by), the length arithmetic of IntoBytes, the zero-modulus guard of ModExp",
     "not_decided": ["agreement of off-circuit evaluation and the compiled circuit (the core of the property): every operation has separate off-circuit and in-circuit code that emits constraints through the standard library; no contract language for emitted constraints is within reach",
                     "JSON / binary round trips (serde, bincode)", "type checking of operands, name resolution, IR compile panics that need whole-program reasoning (Jubjub constants without the jubjub chip, IntoBytes allocation from an unchecked length)"],
